@@ -662,6 +662,31 @@ R19.6 what migrate writes is loadable: yaml and koanf names agree for every conf
 	// R19.6
 	ruleTagAgreement(c, r, "R19.6")
 	ruleMapDefaults(c, r, "R19.6")
+	// migrate copies v2 `exclude` path strings verbatim into exclude-subpkg-regex (and the regex settings into
+	// their v3 names): the strict loader takes them as they are. The only places of the config package that hand a
+	// configured string to regexp are the two questions asked while mocks are selected (round 6: a load-time
+	// compile of every expression made the loader reject migrated files whose exclude entries are plain paths)
+	{
+		cp := r.Pkg("config")
+		n := 0
+		for _, g := range pkgFuncDecls(cp) {
+			ast.Inspect(g.Body, func(x ast.Node) bool {
+				call, ok := x.(*ast.CallExpr)
+				if !ok {
+					return true
+				}
+				name := calleeName(cp.TypesInfo, call)
+				if !strings.HasPrefix(name, "regexp.") && !strings.HasPrefix(name, "(regexp.") {
+					return true
+				}
+				n++
+				okOwner := ownedBy(cp, g, "config.Config.ShouldExcludeSubpkg") || ownedBy(cp, g, "config.PackageConfig.ShouldGenerateInterface")
+				c.Check(okOwner, "R19.6", "loader|regexp-use|"+funcKey(cp, g), r.Pos(call.Pos()), "regexp is consulted only when mocks are selected", funcKey(cp, g)+" hands a configured string to "+name+": if that happens while the configuration is loaded, a migrated file whose `exclude` entries are plain paths (not valid expressions) is rejected by the loader")
+				return true
+			})
+		}
+		c.Check(n >= 2, "R19.6", "loader|regexp-sites", "config/config.go", "regexp use sites found", "no use of regexp found in the config package (anchor unresolved)")
+	}
 	_ = info
 	_ = sort.Strings
 }
